@@ -1,7 +1,8 @@
 \* as built: ALL call sequences of length 4 x 4 cache configurations
 CONSTANTS
-  Objs = {1, 2, 3, 8}
-  Types = {"P", "D"}
+  Objs = {1, 2, 3, 8, 9}
+  Types = {"P", "D", "VM", "VR"}
+  TypesOf <- MC_TypesOf
   Loads <- MC_Loads
   Streams = {4}
   MaxCalls = 4
